@@ -32,7 +32,8 @@ namespace asl {
 
 bool TextFile::end()
 {
-	return (_file || open(_path, READ)) ? feof(_file) != 0 : true;
+	// a read that failed without reaching the end (a stream opened for writing, a directory, an I/O error) also ends the reading
+	return (_file || open(_path, READ)) ? (feof(_file) != 0 || ferror(_file) != 0) : true;
 }
 
 bool TextFile::printf(ASL_PRINTF_W1 const char* fmt, ...)
